@@ -753,6 +753,9 @@ func GenCase(seed int64, idx int, profile string) GCase {
 	if profile == "malformed" {
 		g.badness = 1.6
 	}
+	if profile == "simple" {
+		g.badness = 0
+	}
 	name := fmt.Sprintf("c%05d", idx)
 	modPath := "exp/" + name
 	var decl strings.Builder
